@@ -24,6 +24,8 @@ def _ops_entry(pid, theorems, focus):
 PROPS = {
     "C01": _ops_entry("C01", ["C01_inflight_implies_allocated", "C01_addresses_stable",
                               "C01_reachable_states_well_formed"], "drops and completions"),
+    "C03": _ops_entry("C03", ["C03_readying_completion_wakes_latest_waker", "C03_queue_full_waiter_is_parked"],
+                      "polls with replaced wakers"),
     "C06": _ops_entry("C06", ["C06_drop_cancels_exactly_it", "C06_cancel_targets_only_dropped",
                               "C06_state_freed_at_most_once", "C06_dropped_state_is_reclaimed"], "drops"),
     "C05": dict(
